@@ -359,5 +359,23 @@ fn main() {
     }
     run.bound(format!("scale: {} texts with 15..1025 extra multi-line lines, 70 000-character values, and FILE_SIZE / SIZE_PKG over +-(2^e-1, 2^e, 2^e+1) for e = 0..63", count));
     run.merge(t);
+    // character sweep: every ASCII and 64 special non-ASCII characters around names and values
+    {
+        let mut t = Tally::new();
+        let chars = mc_core::chars::all();
+        run.bound(format!("character sweep: {} characters in 6 line positions inside a complete entry", chars.len()));
+        let req = required_entry(None);
+        for c in chars {
+            for line in [
+                format!("{}COMMENT=x", c), format!("COMMENT{}=x", c), format!("COMMENT={}", c), format!("COMMENT=x{}", c), format!("{}", c), format!("DEPENDS={}{}", c, c),
+            ] {
+                let mut l: Vec<&str> = req.iter().map(|x| x.as_str()).collect();
+                l.insert(3, &line);
+                t.states += 1;
+                check_text(&mut t, &join(&l));
+            }
+        }
+        run.merge(t);
+    }
     run.finish();
 }
